@@ -104,6 +104,15 @@ impl Exec {
         let s = match res { Ok(m) => { self.regs.insert(a.to_string(), m); "ok".to_string() } Err(_) => "panic".into() };
         self.emit(format!("cmulmut {} {}", a, hx(c)), s);
     }
+    /// the default `IVP::mass` body applied to the register
+    pub fn defmass(&mut self, a: &str) {
+        struct NoMass;
+        impl ivp::prelude::IVP for NoMass { fn ode(&self, _: f64, _: &[f64], _: &mut [f64]) {} }
+        let mut ma = self.regs.get(a).unwrap().clone();
+        let res = catch_unwind(AssertUnwindSafe(|| { ivp::prelude::IVP::mass(&NoMass, &mut ma); ma }));
+        let s = match res { Ok(m) => { self.regs.insert(a.to_string(), m); "ok".to_string() } Err(_) => "panic".into() };
+        self.emit(format!("defmass {}", a), s);
+    }
     pub fn isid(&mut self, a: &str) {
         let m = self.regs.get(a).unwrap();
         let res = catch_unwind(AssertUnwindSafe(|| m.is_identity()));
@@ -207,6 +216,17 @@ pub fn random_case(ex: &mut Exec, rng: &mut Rng, maxn: usize) {
     for r in names.iter() {
         ex.isid(r);
         ex.read_all(r);
+    }
+    // the default mass matrix on a fresh matrix of every storage kind, and on whatever is in A
+    let st = match rng.below(3) { 0 => format!("fromstorage {} {} identity", n, n), 1 => format!("fromstorage {} {} full", n, n), _ => format!("fromstorage {} {} banded {} {}", n, n, rng.below(n), rng.below(n)) };
+    ex.new_mat("M", &st);
+    ex.defmass("M");
+    ex.dump("M");
+    ex.read_all("M");
+    ex.isid("M");
+    if ex.regs.get("A").map_or(false, |m| m.n == m.m) {
+        ex.defmass("A");
+        ex.dump("A");
     }
 }
 
